@@ -10,8 +10,8 @@
 -/
 import FcProofs.Lemmas.LexsortCanon
 import FcModel.SortPoints
-namespace Fc
-open Spec
+namespace Fc.C02
+open Fc.C02.Spec
 variable {α : Type}
 
 /-! ### monadic runs -/
@@ -149,4 +149,4 @@ theorem rowsEq_eq_kvec_beq (eq : Int → Int → Bool) (K : Nat → α → Int) 
   | _ + 1, _, [], _, ha, _, _ => by simp at ha
   | _ + 1, _, _ :: _, [], _, hb, _ => by simp at hb
 
-end Fc
+end Fc.C02
